@@ -55,6 +55,9 @@ def scenarios(tier):
         # discard_freelist against an allocation from the list
         sc.append(("discard_vs_pop_" + kind, c, SETUP_TWOSEG,
                    [[{"k": "discard"}], [AB(8), FILL(T1), VER(T1)]], {"live": True}))
+        # the remainder rule reads the minimum segment size while another thread changes it (and the discarded counter)
+        sc.append(("minseg_race_" + kind, c, SETUP_ONESEG,
+                   [[{"k": "setmin", "v": 40}, {"k": "incdisc", "v": 3}, DROP(2)], [AB(16), FILL(T1), VER(T1), DROP(T1)]], {"live": True}))
     # teardown: every thread owns an arena value and drops it itself; the last one unmounts the memory
     for kind in ["opt"]:
         c = es.conc_cfg(cap=200, kind=kind, minseg=8, retries=2, own_clones=True)
@@ -108,7 +111,9 @@ def random_program(rng, t, cap):
     ops, k, mine = [], 0, []
     for _ in range(rng.randint(2, 6)):
         r = rng.random()
-        if r < 0.55 or not mine:
+        if r > 0.93:
+            ops.append(rng.choice([{"k": "setmin", "v": rng.choice([8, 16, 40])}, {"k": "incdisc", "v": rng.choice([1, 3])}]))
+        elif r < 0.55 or not mine:
             k += 1
             h = base + k
             ops.append(rng.choice([AB(rng.choice([8, 16, 24, 40])), AB(rng.randint(1, 48)), AT(8, 8), AT(16, 16), AT(4, 4),
@@ -200,8 +205,7 @@ def analyse_scenario(item):
     res["schedules"] = es.simulate_schedules(wd, "MCsim", cfg, txt, progs, 150 if tier == "quick" else 1500, seed)
     res["wall"] = round(time.time() - t0, 1)
     shutil.rmtree(wd, ignore_errors=True)
-    with open(cfile, "w") as f:
-        json.dump(res, f)
+    rv.dump_json_atomic(cfile, res)
     return res
 
 
